@@ -26,6 +26,7 @@ class Path:
         self.pos = 0
         self.pc = []              # list of Terms (conjunction)
         self.pcset = set()
+        self.known = {}           # term id -> constant value fixed by the path condition
         self.feas_timeout_ms = feas_timeout_ms
         self.checks = []          # (name, Term|bool)
         self.notes = {}
@@ -41,6 +42,8 @@ class Path:
         if t.id not in self.pcset:
             self.pcset.add(t.id)
             self.pc.append(t)
+            if t.op == "eq" and t.args[1].op == "const":
+                self.known[t.args[0].id] = ir.cval(t.args[1])
 
     def _feasible(self, t):
         if t.op == "bconst":
